@@ -6,13 +6,15 @@ From Coq Require Import Lia.
    (aligned, non-null), lies in held memory and overlaps no other live block *)
 Theorem C12_block_fits :
   forall k A g o x a,
-    cfg_ok k -> Inv k g -> wf_op k g o -> no_rewind o -> A_ok k A (fst g) ->
+    cfg_ok k -> Inv k g -> wf_op k g o -> A_ok k A (fst g) ->
     handed_out o (o_res (snd (gstep k A g o))) = Some (x, a) ->
     0 < fst x /\ fst x mod a = 0 /\
     in_held_data k (fst (fst (gstep k A g o))) x /\
     Forall (bdisj x) (others k A g o).
 Proof.
-  intros k A g o x a K HI Hwf Hnr HA Hh.
+  intros k A g o x a K HI Hwf HA Hh.
+  assert (Hnr : no_rewind o).
+  { destruct o; try exact I. destruct ok; [exact I|]. cbn [handed_out] in Hh. discriminate. }
   destruct (handed_out_aligned k A g o x a K HI Hwf HA Hh) as (P0 & Pa & _).
   destruct (handed_out_placed k A g o x a K HI Hwf Hnr HA Hh) as (H1 & H2).
   conj; assumption.
